@@ -14,7 +14,7 @@
    sel    ::= (0 n repl) | (1 n w) | (2 n w) | (3 n cl) | (4 n cl) | (5 n) | (6 n)
    mut    ::= (0 nwhere) | (1 nwhere)
    rec    ::= (0 kind where w) | (1 k) | (2 (cut ...)) | (3 pk where)
-   case   ::= (spec opx (item ...) (draw ...))
+   case   ::= (spec opx (item ...) (draw ...))  |  (5 (w ...) n)   Proportional._partition alone -> (1 (alloc ...)) | (0 err)
    result ::= (0 err) | (1 (out ...) leftover)      out ::= (0 id) an input object | (1 n bdna fit?) the n-th new DNA and its fitness metadata | (2 out ...) a list
    bdna   ::= (dval spec? bdna ...)  as in GenoRun.v *)
 From Coq Require Import ZArith NArith List Bool Arith.
@@ -102,7 +102,7 @@ Definition d_nspec (t : tr) : option nspec :=
   | L [I 1; a; l] => do a' <- dnat a; do l' <- dnat l; Some (NFrac a' l')
   | L [I 2] => Some NNone
   | _ => None end.
-Definition d_wfn (t : tr) : option wfn := match t with I 0 => Some WConst | I 1 => Some WFit | _ => None end.
+Definition d_wfn (t : tr) : option wfn := match t with I 0 => Some WConst | I 1 => Some WFit | I 2 => Some WFitRaw | _ => None end.
 Definition d_where (t : tr) : option wheresel :=
   match t with L [I 0] => Some WAll | L [I 1; k] => do k' <- dnat k; Some (WAny k') | L [I 2] => Some WEvens | _ => None end.
 Definition d_nwhere (t : tr) : option nwhere :=
@@ -205,5 +205,11 @@ Definition run (c : tr) : tr :=
               L [I 1; L (map (e_out s n0 news) out); enat (length rest)]
           end
       | _, _, _, _ => ebad end
+  | L [I 5; ws; n] =>        (* Proportional._partition alone: (5 (w ...) n) -> (1 (alloc ...)) | (0 err) *)
+      match dlist dZ ws, dnat n with
+      | Some ws', Some n' => match partition ws' n' with
+                             | Ok al => L [I 1; L (map eZ al)]
+                             | Err e => L [I 0; e_err e] end
+      | _, _ => ebad end
   | _ => ebad
   end.
